@@ -259,6 +259,17 @@ theorem C07_schema_wait_sites_return_waited_schema_and_error :
       w.after == "return-with-err" && w.errField == "err" && w.errOf == w.recv && w.retVal == w.recv) = true := by
   decide
 
+/-- COMPLETION SITES (regenerated): the builder of a cache entry tells its waiters that it is done on EVERY return path — the only
+    `close(cacheStmt.prepared)` and the only `close(schema.initialized)` are unconditional `defer` statements — and the
+    preparation error is published (`cacheStmt.prepareErr = err`, under `if err != nil`) in the function whose deferred close
+    releases the waiters.  Without the first, waiters on a failed build block forever; without the second they see "no error". -/
+theorem C07_completion_published_on_every_path :
+    (Gen.completionSites.filter fun d => d.kind == "close").map (fun d => (d.fn, d.target, d.deferred, d.guard)) =
+      [("PreparedStmtDB.prepare", "cacheStmt.prepared", true, ""), ("ParseWithSpecialTableName", "schema.initialized", true, "")] ∧
+    (Gen.completionSites.filter fun d => d.kind == "seterr").map (fun d => (d.fn, d.target, d.guard)) =
+      [("PreparedStmtDB.prepare", "cacheStmt.prepareErr = err", "err!=nil")] := by
+  decide
+
 open Gorm.SW Gorm.SC in
 /-- LOCAL STEP, both lookup branches.  A goroutine whose wait on entry `e` is over (`prepared` closed) and whose preparer
     FAILED: if the wait site it went through tests `prepareErr`, its next step returns the preparation error; if not, it
@@ -301,6 +312,43 @@ example :
     (let w := wrun (winit [.use 0 0 false, .use 0 0 false] 1 {} allChecked)
        [.thr 0 .ok, .thr 0 .ok, .thr 1 .ok, .thr 0 .err, .thr 0 .ok, .thr 0 .ok, .thr 1 .ok]
      w.via 1 = .fast ∧ (w.base.threads 1).ent = some 0 ∧ result w.base 1 = some .prepErr) := by decide
+
+open Gorm.SW Gorm.SC in
+/-- F31 at model level (kernel-checked): goroutine 1 receives ONLY `ok` answers from its driver — alone its statement is
+    prepared and executed — but it found goroutine 0's in-progress entry, goroutine 0's `PrepareContext` failed (its context
+    was cancelled), and goroutine 1 returns THAT preparation error.  The full statement "each returns the same result as when it
+    runs alone" fails on this schedule. -/
+theorem C07_prepare_error_broadcast_counterexample :
+    let sched : List Act := [.thr 0 .ok, .thr 0 .ok, .thr 1 .ok, .thr 0 .err, .thr 0 .ok, .thr 0 .ok, .thr 1 .ok]
+    let w := wrun (winit [.use 0 0 false, .use 0 0 false] 1 {} allChecked) sched
+    (sched.all fun a => match a with | .thr 1 x => x == .ok | _ => true) = true ∧
+    result w.base 1 = some .prepErr ∧ (w.base.threads 1).ent = some 0 ∧ (w.base.entries 0).owner = 0 ∧
+    result (wrun (winit [.use 0 0 false] 1 {} allChecked) (List.replicate 8 (.thr 0 .ok))).base 0 = some .rows := by
+  decide
+
+open Gorm.SW Gorm.SC in
+/-- OUTSIDE THE F31 PATTERN (extra hypothesis = its negation: the operation is the preparer of the entry it resolved to, or that
+    entry's preparation did not fail): after ANY schedule an operation reports a preparation error only if it is the goroutine
+    whose OWN `PrepareContext` failed — exactly what it reports when it runs alone with that driver answer. -/
+theorem C07_prepare_error_own_partial (ops : List Op) (nV : Nat) (cfg : SC.Cfg) (sched : List Act) (t e : Nat) (r : Res) :
+    let w := wrun (winit ops nV cfg allChecked) sched
+    (w.base.threads t).ent = some e → result w.base t = some r →
+    ((w.base.entries e).owner = t ∨ (w.base.entries e).err = false) →
+    r = .prepErr → (w.base.entries e).owner = t ∧ (w.base.entries e).err = true := by
+  intro w hent hres hpat hr
+  have hb : w.base = run (init ops nV cfg) sched := wrun_base (winit ops nV cfg allChecked) rfl sched
+  rw [hb] at hent hres hpat ⊢
+  have hT := (inv1_reachable ops nV cfg sched).1.1 t
+  unfold result at hres
+  split at hres
+  next r' hpc =>
+    have hrr : r' = r := by simpa using hres
+    have herr : ((run (init ops nV cfg) sched).entries e).err = true :=
+      ((hT.2.2.2.2.2.2.2.2 r' hpc e hent).2.2).mpr (by rw [hrr]; exact hr)
+    rcases hpat with h | h
+    · exact ⟨h, herr⟩
+    · rw [h] at herr; cases herr
+  next => cases hres
 
 /-- the double-check schedule: both goroutines miss under RLock, 0 publishes, 1 finds the entry under Lock, 0's prepare fails -/
 def swSchedDouble : List SC.Act :=
